@@ -35,6 +35,7 @@ inductive Br (Q : Expr → Prop) : Expr → Prop
   | field {e} (name sp) : Br Q e → Br Q (.field e name sp)
   | index {e i} (sp) : Br Q e → Frag i → Q i → Br Q (.index e i sp)
   | inSuper {e} (ssp sp) : Br Q e → Br Q (.inSuper e ssp sp)
+  | call {f} (args ts sp) : Br Q f → (∀ a ∈ args, Frag a.expr ∧ Q a.expr) → Br Q (.call f args ts sp)
 
 omit pe R in
 theorem Br.frag {Q : Expr → Prop} {e : Expr} (h : Br Q e) : Frag e := by
@@ -55,6 +56,7 @@ theorem Br.frag {Q : Expr → Prop} {e : Expr} (h : Br Q e) : Frag e := by
   | field name sp _ ih => exact .field name sp ih
   | index sp _ hi _ ih => exact .index sp ih hi
   | inSuper ssp sp _ ih => exact .inSuper ssp sp ih
+  | call args ts sp _ ha ih => exact .call args ts sp ih (fun a hm => (ha a hm).1)
 
 /-- head parse: `State::Primary` on the tokens of the head of `t` -/
 def HDs (t : Expr) : Prop :=
@@ -67,7 +69,7 @@ def HDs (t : Expr) : Prop :=
 /-- postfix loop on the postfix tokens of `t` -/
 def SLs (t : Expr) : Prop :=
   ∀ (lhs : Expr) (st : PState toks) (y : TokKind) (Y : List TokKind), lhs.erase = (headOf t).erase →
-    st.kinds = sufToks t ++ y :: Y → st.kinds.length ≤ R →
+    st.kinds = sufToks t ++ y :: Y → st.kinds.length ≤ R → y ≠ sim .Tailstrict →
     ∃ t' st2, t'.erase = t.erase ∧ st2.kinds = y :: Y ∧
       ∀ f, st.kinds.length + 1 ≤ f →
         ∃ f', st2.kinds.length + 1 ≤ f' ∧ parseSuffixExpr pe f lhs st = parseSuffixExpr pe f' t' st2
@@ -114,7 +116,7 @@ theorem L11_of {t : Expr} (ht : Frag t) (hd : HDs pe R t) (sl : SLs pe R t) : L1
   have hR1 : st1.kinds.length ≤ R := by
     have : st1.kinds.length ≤ st.kinds.length := by rw [hk1, hk, hy]; simp
     omega
-  obtain ⟨t', st2, het, hk2, hsl⟩ := sl h' st1 tk T he hk1 hR1
+  obtain ⟨t', st2, het, hk2, hsl⟩ := sl h' st1 tk T he hk1 hR1 hns.2.2.2.2
   obtain ⟨st3, hk3, hdone⟩ := suffix_done pe t' (st := st2) (by rw [cur_kind_of_kinds hk2]; exact hns)
   refine ⟨t', st3, n + 1, het, by rw [hk3, hk2], ?_, ?_⟩
   · rw [P_split ht, List.length_append]; omega
